@@ -42,6 +42,26 @@ int main(int argc, char **argv)
 {
     if (argc < 2) return 3;
     Args a = parse_args(argc, argv);
+    if (has(a, "connectives")) {
+        // And/Or/Nand/Nor over 1, 2 and repeated operands: parse against the direct call on the set of operands
+        RCP<const Boolean> p = Lt(symbol("x"), symbol("y")), q = Lt(symbol("u"), symbol("v"));
+        struct C { const char *name; std::function<RCP<const Boolean>(const set_boolean &)> f; };
+        std::vector<C> cs = {{"And", [](const set_boolean &s) { return logical_and(s); }}, {"Or", [](const set_boolean &s) { return logical_or(s); }},
+                             {"Nand", [](const set_boolean &s) { return logical_nand(s); }}, {"Nor", [](const set_boolean &s) { return logical_nor(s); }}};
+        int bad = 0;
+        for (auto &c : cs) {
+            std::vector<std::pair<std::string, set_boolean>> cases = {{"(x < y)", {p}}, {"(x < y, x < y)", {p}}, {"(x < y, u < v)", {p, q}}, {"(x < y, u < v, x < y)", {p, q}}};
+            for (auto &k : cases) {
+                std::string src = std::string(c.name) + k.first;
+                try {
+                    B got = parse(src); B want = c.f(k.second);
+                    if (!eq(*got, *want)) { std::cout << "parse(\"" << src << "\") = " << got->__str__() << " ; the connective applied to the operand set = " << want->__str__() << "\nREPRODUCED: the connective is not applied to its operands\n"; bad = 1; }
+                } catch (SymEngineException &e) { std::cout << "parse(\"" << src << "\") threw " << e.what() << "\nREPRODUCED\n"; bad = 1; }
+            }
+        }
+        if (!bad) std::cout << "And/Or/Nand/Nor over one, two and repeated operands parse to the connective of the operand set\n";
+        return bad;
+    }
     if (has(a, "names")) return replay_names();
     if (!has(a, "s")) return 2;
     std::string s = a["s"];
